@@ -4,12 +4,13 @@ import itertools
 import re
 
 from .. import gen, oracle, tt as T
-from .base import Mgr, replay  # noqa: F401
+from .base import Mgr, handle_tt, replay  # noqa: F401
 from ..impl import vname
 
 RULE = ('functions by truth table (<=4 variables; 3 variables sampled/all) x order x sign x sets '
         'of roots; Shannon expansion through autoref handles, descendants/len, and evaluation of '
-        'the exported networkx/DOT graphs; non-trivial = non-constant function')
+        'the exported networkx/DOT graphs; kept handles whose views were read, re-read after '
+        'reorderings (explicit orders, sifting, adjacent exchanges) and collections; non-trivial = non-constant function')
 EXHAUSTIVE = {'quick': False, 'thorough': False}
 ASSUMES = ['DotGraph text formatting and Graphviz are glue: the DOT text is parsed back by the harness']
 
@@ -215,9 +216,78 @@ def autoref_stream(ctx, n, order, tts):
         s.op(A, 'drop', h)
 
 
+def kept_handles_stream(ctx, n, order, tts):
+    """Long-lived handles whose views were already read, then reorderings (explicit
+    orders, sifting, swaps) and collections: the views of the SAME handle objects
+    still expand to the handle's function."""
+    s = ctx.session(f'kept handles n={n} order={order}')
+    A = 'a0'
+    rng = ctx.rng
+    s.op(A, 'new', {v: l for v, l in zip(range(n), order)})
+    case = lambda: dict(stream=s.label, lines=list(s.lines))  # noqa: E731
+    kept = []
+    for t in tts:
+        h = s.op(A, 'false')
+        for k in range(1 << n):
+            if (t >> k) & 1:
+                c = s.op(A, 'cube', {j: bool(T.getbit(k, j, n)) for j in range(n)})
+                h2 = s.op(A, 'fapply', 'or', h, c)
+                s.op(A, 'drop', h)
+                s.op(A, 'drop', c)
+                h = h2
+        if rng.random() < 0.5:
+            h2 = s.op(A, 'fapply', 'not', h, None)
+            s.op(A, 'drop', h)
+            h, t = h2, T.neg(t, n)
+        kept.append((h, t))
+
+    def views(when):
+        for h, t in kept:
+            ctx.case((n, order, 'kept', t, when), t not in (0, T.full(n)))
+            ctx.count('kept-view')
+            got = handle_tt(s, A, h, n)
+            if got != t:
+                ctx.violation('C18:kept-handle-view',
+                              f'{when}: a kept handle read through var/low/high/negated expands to '
+                              f'{got:#x}, it denotes {t:#x}', case)
+                return False
+            v = s.op(A, 'varof', h)
+            lvl = s.op(A, 'level', h)
+            b = s.impl.amgr[A]._bdd
+            if v is not None and b._level_to_var.get(lvl) != vname(v):
+                ctx.violation('C18:kept-handle-view',
+                              f'{when}: handle.var = v{v} but level {lvl} carries {b._level_to_var.get(lvl)}', case)
+                return False
+        return True
+    if views('fresh'):
+        for i in range(4):
+            k = rng.random()
+            if k < 0.5:
+                s.op(A, 'reorder', dict(zip(range(n), rng.sample(range(n), n))))
+            elif k < 0.75:
+                s.op(A, 'reorder', None)
+            elif n >= 2:
+                # exchange two adjacent levels
+                b = s.impl.amgr[A]._bdd
+                lv = {j: b.vars[vname(j)] for j in range(n)}
+                x = rng.randrange(n - 1)
+                s.op(A, 'reorder', {j: (x + 1 if l == x else x if l == x + 1 else l) for j, l in lv.items()})
+            if rng.random() < 0.4:
+                s.op(A, 'gc')
+            if not views(f'after reordering {i}'):
+                break
+    for h, _ in kept:
+        s.op(A, 'drop', h)
+    ctx.sample(dict(stream=s.label, first_lines=s.lines[:8]))
+
+
 def run(ctx):
     q = ctx.quick
     rng = ctx.rng
+    for order in gen.orders(3):
+        kept_handles_stream(ctx, 3, order, rng.sample(range(256), 3 if q else 16))
+    for order in rng.sample(gen.orders(4), 2 if q else 12):
+        kept_handles_stream(ctx, 4, order, [rng.getrandbits(16) for _ in range(3 if q else 8)])
     for order in gen.orders(3):
         bdd_stream(ctx, 3, order, sorted(rng.sample(range(256), 6 if q else 60)))
         bdd_stream(ctx, 3, order, sorted(rng.sample(range(256), 6 if q else 40)), aged=True)
